@@ -43,6 +43,9 @@ func (c10) Classes() []sim.Class {
 			sim.Class{Name: "registry", Engine: e, Quick: q, Thorough: th, Instrumented: true, RunTimeoutSec: 120},
 			sim.Class{Name: "compiled-handles", Engine: e, Quick: q / 4, Thorough: th / 4, Instrumented: true, RunTimeoutSec: 120},
 			sim.Class{Name: "context-close", Engine: e, Quick: 150, Thorough: 6000, Instrumented: true, RunTimeoutSec: 120},
+			// sequential: hundreds of names (map and list resizing); files released exactly once on close
+			sim.Class{Name: "registry-large", Engine: e, Quick: 40, Thorough: 1500, Instrumented: true, RunTimeoutSec: 120},
+			sim.Class{Name: "resources", Engine: e, Quick: 300, Thorough: 12000, Instrumented: true, RunTimeoutSec: 120},
 		)
 	}
 	return cs
@@ -556,8 +559,13 @@ func firstLine(err error) string {
 }
 
 func (c10) Run(t *tape.Tape, cfg sim.Config) (res sim.Result) {
-	if cfg.Class == "context-close" {
+	switch cfg.Class {
+	case "context-close":
 		return contextClose(t, cfg)
+	case "registry-large":
+		return registryLarge(t, cfg)
+	case "resources":
+		return resourcesRelease(t, cfg)
 	}
 	ctx := context.Background()
 	var rc wazero.RuntimeConfig
